@@ -447,6 +447,7 @@ def verify_config(contract, cfg, both=False, z3_timeout=None):
         if npaths == 0:
             res.error = ('vacuous', 'no feasible path through the fragment')
         nreplays = 0
+        infeasible_paths = set()
         for vc in vcs:
             kw = {} if z3_timeout is None else {'z3_timeout': z3_timeout}
             small = [[cx.N <= b] for b in (3, 8, 40)] if vc.kind != 'cover' else None
@@ -454,7 +455,7 @@ def verify_config(contract, cfg, both=False, z3_timeout=None):
             if vc.kind == 'cover':
                 # must be SAT (hypotheses consistent)
                 if v.status == 'unsat':
-                    res.error = ('vacuous', f'contradictory path condition on path {vc.path}')
+                    infeasible_paths.add(tuple(vc.path or ()))      # explored but infeasible: its VCs hold vacuously, not counted
                 continue
             if v.status == 'sat':
                 m = v.model
@@ -467,6 +468,8 @@ def verify_config(contract, cfg, both=False, z3_timeout=None):
                     except Exception as e:      # a crashing replay is a checker problem, not a verdict
                         v.note = {'reproduced': None, 'reason': f'replay crashed: {type(e).__name__}: {e}'}
             res.verdicts.append(v)
+        if npaths and len(infeasible_paths) >= npaths:
+            res.error = ('vacuous', 'every explored path has a contradictory path condition')
     except OutOfSubset as e:
         res.error = ('out-of-subset', str(e))
     except RoleError as e:
